@@ -34,6 +34,7 @@ import zlib
 
 from . import core
 from .c01 import crc_expected, crc_remainder
+from .c02 import FAR_DS, FAR_EXPS, FAR_KINDS, far_items, far_stream
 
 SRCS = ['alg/sha256.c', 'alg/sha256_shani.c', 'alg/sha256_sse2.c',
         'alg/crc32c.c', 'alg/crc32c_sse42.c',
@@ -549,6 +550,26 @@ def gen_cases(seed, tier, shard, nshards):
         add('ctr', 'S %d %d %s %d %s %s %d' % (rnd.randrange(16), rnd.randrange(16), key.hex(),
                                                rand_nonce(rnd), core.hx(data), pstr(p), 0), '',
             sig('SX', 'cross-65536', len(key), n))
+    # far-offset streams (verification hook crypto_aesctr_verif_seek): the
+    # stream is moved to block 2^e - d, e in FAR_EXPS, d in FAR_DS, and the
+    # calls then cross block 2^e as one bulk call / sub-block calls / bulk
+    # call ending there + sub-block calls / sub-block calls ending there +
+    # bulk call / cuts with 0-length calls; plus one call of 300..1300 whole
+    # blocks across 2^e - 256 and 2^e.  This shard's share of the grid.
+    frnd = random.Random(seed ^ 0xFA3)
+    for i, item in enumerate(far_items(1 if tier == 'quick' else 6)):
+        if i % nshards != shard:
+            continue
+        f = far_stream(frnd, item)
+        key = rbytes(frnd, frnd.choice([16, 32]))
+        data = rbytes(frnd, f['n'])
+        inpl = frnd.randrange(2)
+        ali, alo = frnd.randrange(16), frnd.randrange(16)
+        add('ctr-far', 'F %d %d %s %d %d %s %s %d' % (ali, alo, key.hex(), rand_nonce(frnd),
+                                                      f['start'], core.hx(data),
+                                                      pstr(f['parts']), inpl), '',
+            sig('F', f['exp'], f['d'], f['kind'], len(key), inpl, len(f['parts'])))
+        cases[-1]['far'] = '2^%d-%d %s' % (f['exp'], f['d'], f['kind'])
     return cases
 
 
@@ -580,7 +601,19 @@ def lib_part(ans):
     return ans.split(' ', 1)[0]
 
 
-def judge_for(variant, base, diffs, zbox):
+def far_witness(c, t, vname):
+    """Where a far-offset stream leaves the model (absolute block number)."""
+    f = c['line'].split()
+    start = int(f[5])
+    fd = next((i for i in range(0, min(len(t[0]), len(t[1])), 2) if t[0][i:i + 2] != t[1][i:i + 2]),
+              -2) // 2
+    return ('variant %s: stream moved to block %d (%s) with crypto_aesctr_verif_seek, calls %s: '
+            'output differs from the AES-CTR model at data offset %d = block %d: library ...%s, '
+            'model ...%s' % (vname, start, c.get('far', '?'), f[7][:80], fd, start + fd // 16,
+                             t[0][2 * fd:2 * fd + 32], t[1][2 * fd:2 * fd + 32]))
+
+
+def judge_for(variant, base, diffs, zbox, farbox=None):
     """Judge of one variant.  `base` (idx -> library answer) is filled by the
     first variant and compared by the later ones; disagreements go to
     `diffs` (idx -> {answer: [variant names]})."""
@@ -593,6 +626,8 @@ def judge_for(variant, base, diffs, zbox):
             zbox.append(ans)
             return None
         la = lib_part(ans)
+        if kind == 'ctr-far' and farbox is not None:
+            farbox[0] += 1
         if first:
             base[c['idx']] = (la, variant['name'])
         else:
@@ -605,11 +640,13 @@ def judge_for(variant, base, diffs, zbox):
             elif c['idx'] in diffs:
                 diffs[c['idx']][la].append(variant['name'])
         impl = impl_of(kind, exp)
-        if kind in ('aes', 'ctr'):
+        if kind in ('aes', 'ctr', 'ctr-far'):
             t = ans.split()
             if len(t) != 2:
                 return ('oracle:%s:%s' % (kind, impl), 'unparsable answer %r' % ans[:200])
             if t[0] != t[1]:
+                if kind == 'ctr-far':
+                    return ('oracle:%s:%s' % (kind, impl), far_witness(c, t, variant['name']))
                 return ('oracle:%s:%s' % (kind, impl), 'variant %s: library %s, FIPS-197 reference %s'
                         % (variant['name'], short(t[0]), short(t[1])))
             return None
@@ -631,10 +668,12 @@ def parse_z(ans):
 def run_variants(variants, cases, timeout=1200):
     """Run the same lines through every variant.  -> shard result."""
     res = {'evals': 0, 'sigs': set(), 'alarms': [], 'counters': {}, 'disabled': [],
+           'far': [c['far'] for c in cases if 'far' in c], 'far_evals': 0,
            'samples': [c['line'][:200] for c in cases if len(c['line']) > 60][7::97][:3]}
     base, diffs = {}, {}
     for v in variants:
         zbox = []
+        farbox = [0]
         mine = []
         for i, c in enumerate(cases):
             d = dict(c)
@@ -644,9 +683,10 @@ def run_variants(variants, cases, timeout=1200):
             mine.append(d)
         mine.append({'kind': 'counters', 'line': 'Z', 'expect': '', 'sig': 0, 'nt': False,
                      'idx': len(cases), 'meta': {'variant': v['name']}})
-        r = core.line_shard(v['exe'], mine, judge=judge_for(v, base, diffs, zbox), timeout=timeout,
+        r = core.line_shard(v['exe'], mine, judge=judge_for(v, base, diffs, zbox, farbox), timeout=timeout,
                             args=v.get('args', ()))
         res['evals'] += r['evals'] - len(zbox)
+        res['far_evals'] += farbox[0]
         res['sigs'] |= r['sigs']
         res['alarms'] += r['alarms']
         # a process that died (sanitizer report, assert) after it had called a
@@ -834,6 +874,28 @@ def run(ctx):
     sv = slim_variants(variants)
     res = core.pmap(_shard, [(sv, seeds[i], ctx.tier, i, n) for i in range(n)])
     finish(ctx, variants, skipped, res)
+    far = [f for r in res for f in r['far']]
+    per_b, per_k = {}, {}
+    for f in far:
+        b, k = f.split(' ')
+        b = b.split('-')[0]
+        per_b[b] = per_b.get(b, 0) + 1
+        per_k[k] = per_k.get(k, 0) + 1
+    far_evals = sum(r['far_evals'] for r in res)
+    ctx.count('far_offset_streams', len(far))
+    ctx.count('far_offset_stream_answers_all_variants', far_evals)
+    ctx.count('far_offset_boundaries_covered', len(per_b))
+    ctx.cov['far_offset'] = {
+        'hook': 'crypto_aesctr_verif_seek (crypto/crypto_aesctr.c, LIBCPERCIVA_VERIF)',
+        'streams_per_boundary': {b: per_b[b] for b in sorted(per_b, key=lambda x: int(x[2:]))},
+        'streams_per_kind': per_k, 'start_offsets_d': FAR_DS,
+        'excluded': 'block 2^64 (not named by the statement) and everything from block 2^60 on '
+                    '(64-bit byte position of the library ends there)'}
+    if len(per_b) != len(FAR_EXPS) or set(per_k) != set(FAR_KINDS + ['big-bulk']) or \
+            (far_evals < len(far) * len(variants) and not ctx.violations and not ctx.known_hits):
+        ctx.note_inconclusive('far-offset streams: %d answers for %d streams x %d variants, '
+                              'boundaries %r, kinds %r' % (far_evals, len(far), len(variants),
+                                                           sorted(per_b), sorted(per_k)))
     for r in res[:2]:
         for s in r['samples']:
             ctx.add_sample(s)
@@ -847,7 +909,16 @@ def run(ctx):
         'whole blocks - 4096..20000 bytes, the low counter byte wraps once or twice inside the call, '
         'shapes ' + ', '.join(LONG_SHAPES) + ' - followed by calls of < 16 bytes, 0-length calls, '
         'sometimes a second bulk call, and a tail, so that the bulk code hands its counter to the '
-        'portable block code and back) '
+        'portable block code and back; far-offset CTR streams: directly after crypto_aesctr_init '
+        'the stream is moved with the LIBCPERCIVA_VERIF hook crypto_aesctr_verif_seek to block '
+        '2^e - d for every e in {' + ', '.join(map(str, FAR_EXPS)) + '} and d in {' +
+        ', '.join(map(str, FAR_DS)) + '} (d <= 2^e), and for each (e, d) the calls cross '
+        'block 2^e in 5 ways - ONE bulk call with whole blocks on both sides, calls of 0..15 bytes, '
+        'a bulk call ending exactly at 2^e then sub-block calls, sub-block calls ending exactly at '
+        '2^e then a bulk call, cuts around 2^e with 0-length calls between - plus per e ONE call of '
+        '300..1300 whole blocks that starts just before block 2^e - 256 and runs across 2^e - 256 '
+        'and 2^e; in place or two buffers, offsets 0..15; expected bytes = refaes at the absolute '
+        'block index) '
         'is executed by every variant; each answer is compared with hashlib/hmac, the CRC '
         'algebra and refaes, and with every other variant.  Variants: (a) every compile-time subset, '
         '(b) compiled in but the detector answers "absent", (c) no CPUID, (d) "self-test fails": '
@@ -868,6 +939,10 @@ def run(ctx):
     ctx.cov['sanitizers'] = 'gcc -fsanitize=address,undefined; buffers end at the end of their heap block'
     ctx.assumptions += [
         'ARM paths cannot execute on this host',
+        'block counters above 2^16 are reached through the verification hook '
+        'crypto_aesctr_verif_seek (crypto/crypto_aesctr.c under LIBCPERCIVA_VERIF: bytectr and the '
+        'counter block as after n whole blocks), not by streaming; streams end before block 2^60 '
+        '(64-bit byte position of the library); behaviour at block 2^64 is not stated and not exercised',
         'a failed self-test is simulated in the harness (first call of the wrapped entry point, '
         'only if it carries the library\'s self-test vector); the CPU itself is not faulty, so a '
         'library that ignored the failure without a warning would make those variants inconclusive, '
